@@ -605,6 +605,8 @@ func (p *c19) Run(tier string, seed int64, idx int) core.CaseResult {
 			if lt.rtype.Kind != "string" && lt.rtype.Kind != "empty" && len(lt.vals) > 0 {
 				for _, v := range lt.vals[:min(2, len(lt.vals))] {
 					if j := strings.Index(v, ":"); j >= 0 {
+						// (a qualified value behind one more module name is no value either)
+						toks = append(toks, "\"m18:"+v+"\"")
 						v = v[j+1:]
 					}
 					toks = append(toks, "\"m18:"+v+"\"")
